@@ -2,7 +2,7 @@
 The tie between the code and the model, as theorems.
 
 `Gen/PySrc.lean` is produced on every run by the translator `harness/py2lean.py` from the live
-Python source of the repository (20 decision functions: the tokenizer's character classes, the
+Python source of the repository (21 decision functions: `util.get_term_ex`, the tokenizer's character classes, the
 printer's parenthesisation predicates, the classifiers of all nine rules).  The theorems below say that
 the hand-written model — the one every property theorem is about — computes exactly what the
 translated source computes, for all characters / trees / positions / options.  They are re-checked
@@ -12,8 +12,8 @@ the check then searches for a concrete failing input.
 
 Trusted here: the translator (a syntax-directed map on a small Python fragment) and the run-time
 library `Model/PyRt.lean` (what `.left/.right/.parent`, `isinstance`, `get_sibling` mean on a
-well-formed tree; `get_term_ex` / `factor_add_terms_ex` of util.py enter the translated classifiers of
-factor-out and variable-multiply as externals = the hand-written `getTermEx` / `factorAddTermsEx`).
+well-formed tree; `factor_add_terms_ex` of util.py enters the translated classifier of factor-out as
+an external = the hand-written `factorAddTermsEx`).
 The `while` loop of balanced move becomes a fuel-indexed function whose fuel (depth + 1) is PROVED
 sufficient; `get_root`, `get_root_side`, `find_type` are library calls (PyRt).
 Not covered by the translator: the mutating halves of the rules (`apply_to`), util.py, parser,
@@ -78,6 +78,13 @@ theorem Src_arrangements (k : Ctx) (n : Ex) :
     BalancedMoveRule_get_type (some ⟨k, n⟩) = (bmType k n).map BMType.pyName :=
   ⟨constants_type_agree k n, restate_type_agree k n, inverse_type_agree k n, df_type_agree k n, vm_type_agree k n,
     bm_type_agree k n⟩
+
+/-- **Source tie, term extraction (C16, and the classifiers that call it).** `util.get_term_ex` as
+translated from the live source is the model's `getTermEx`; the flag is the parent test
+`isinstance(node.parent, PowerExpression)` read off the position. -/
+theorem Src_get_term_ex (k : Ctx) (e : Ex) :
+    get_term_ex (some ⟨k, e⟩) = getTermEx (parentIs .pow k) e :=
+  get_term_ex_agree (some ⟨k, e⟩)
 
 /-! non-vacuity: the translated classifier accepts `2 + (3 + x)` at the root (chained right) -/
 example : (ConstantsSimplifyRule_get_type
